@@ -29,6 +29,11 @@ Oracle clauses
                         same names and the same DuckDB-level context as before the connect, and its first unqualified
                         statements behave exactly as they did in the history without this connect (differential against
                         the implementation's own behaviour one connect earlier)
+                        what every pre-existing database stores about its tables (table comments, VARCHAR lengths:
+                        fakesnow's _fs_* bookkeeping rows, only compared with themselves) is the same before and after
+                        the connect - for a database file of a previous instance: the same as that instance had
+                        stored; and for the prior table DB1.S1.T0 the reported comment, CHARACTER_MAXIMUM_LENGTH and
+                        DESCRIBE type equal the hand-written values (every fixture table has a comment and a VARCHAR(n))
   C14.files             db_path: the directory holds <DB>.db exactly for the databases created/attached so far (plus
                         the previous instance's files), a database found on disk comes with its previous contents,
                         files of databases that were never attached are byte-identical; in-memory: no file is written
@@ -110,22 +115,41 @@ BYSTANDER_SQL = (
     "create database other",
     "create schema other.so",
     "create schema other.s1",  # same name as the requested schema, in another database: must not count as "exists"
-    "create table other.so.keep (x int)",
-    "insert into other.so.keep values (1)",
+    "create table other.so.keep (x int, v varchar(10)) comment = 'bystander table'",
+    "insert into other.so.keep values (1, 'one')",
     "use schema other.so",  # s0's own context, must survive every later connect
 )
 PRIOR_SQL = {
     "nothing": (),
-    "database": ("create database db1",),
-    "database+schema": ("create database db1", "create schema db1.s1", "create table db1.s1.t0 (x int)", "insert into db1.s1.t0 values (7)"),
+    # "database only": S1 is missing; another schema holds a table so that DB1 has something stored to disturb
+    "database": (
+        "create database db1",
+        "create schema db1.sx",
+        "create table db1.sx.kx (x int, v varchar(30)) comment = 'table next to the missing schema'",
+        "insert into db1.sx.kx values (5, 'five')",
+    ),
+    "database+schema": ("create database db1", "create schema db1.s1", "create table db1.s1.t0 (x int, v varchar(20)) comment = 'prior table'", "insert into db1.s1.t0 values (7, 'seven')"),
 }
-OLD_SQL = ("create database old", "create schema old.os", "create table old.os.ot (x int)", "insert into old.os.ot values (3)")
+OLD_SQL = ("create database old", "create schema old.os", "create table old.os.ot (x int, v varchar(5)) comment = 'old table'", "insert into old.os.ot values (3, 'abc')")
 
 
 def prior_content(prior):
     """What PRIOR_SQL leaves in DB1 (None: no DB1), written by hand."""
-    return {"nothing": None, "database": {}, "database+schema": {"S1": {"T0": ["(7,)"]}}}[prior]
+    return {"nothing": None, "database": {"SX": {"KX": ["(5, 'five')"]}}, "database+schema": {"S1": {"T0": ["(7, 'seven')"]}}}[prior]
 
+
+# what Snowflake reports about DB1.S1.T0 as created by PRIOR_SQL (hand-written from the documentation: COMMENT column of
+# INFORMATION_SCHEMA.TABLES, CHARACTER_MAXIMUM_LENGTH of INFORMATION_SCHEMA.COLUMNS, "type" column of DESCRIBE TABLE)
+T0_REPORTED = {
+    "comment": (("T0", "prior table"),),
+    "character_maximum_length": (("V", 20), ("X", None)),
+    "describe": (("X", "NUMBER(38,0)"), ("V", "VARCHAR(20)")),
+}
+T0_QUERIES = {
+    "comment": "select table_name, comment from information_schema.tables where table_schema = 'S1' order by 1",
+    "character_maximum_length": "select column_name, character_maximum_length from db1.information_schema.columns where table_schema = 'S1' and table_name = 'T0' order by 1",
+    "describe": "describe table db1.s1.t0",
+}
 
 OPTION_TABLE_DOC = """
 D = database.upper() if given, S = schema.upper() if given; "exists" = attached in this instance.
@@ -154,12 +178,12 @@ class Model:
         self.ever_attached: set = set()
         # fixture, mirrored by hand
         if self.storage == "previous":
-            self.disk["OLD"] = {"OS": {"OT": ["(3,)"]}}
+            self.disk["OLD"] = {"OS": {"OT": ["(3, 'abc')"]}}
             if prior_content(self.prior) is not None:
-                self.disk["DB1"] = prior_content(self.prior)
+                self.disk["DB1"] = copy.deepcopy(prior_content(self.prior))
         self.sessions.append({"database": None, "schema": None, "has_db": False, "has_schema": False, "alive": True})
         self._attach("OTHER")
-        self.cat["OTHER"]["SO"] = {"KEEP": ["(1,)"]}
+        self.cat["OTHER"]["SO"] = {"KEEP": ["(1, 'one')"]}
         self.cat["OTHER"]["S1"] = {}
         self.sessions[0].update(database="OTHER", schema="SO", has_db=True, has_schema=True)
         if self.storage != "previous" and prior_content(self.prior) is not None:
@@ -284,8 +308,25 @@ QUIRK_RAISE = {"cd=F,cs=T,db=missing,schema=given": "BinderException"}
 HIDDEN_SCHEMAS = ("main", "information_schema", "pg_catalog")
 
 
-def real_catalog(fs):
-    cat = observe.user_view(observe.catalog(fs, views=False, data=True))
+def stored_metadata(raw):
+    """fakesnow's stored Snowflake-side metadata (table comments, VARCHAR lengths, ...) per database: the rows of every
+    bookkeeping table (name prefix _fs_, the convention mc/observe.py knows) - only ever compared with itself
+    (before/after a connect, previous instance/new instance), never interpreted."""
+    data = dict(raw["data"])
+    out: dict = {}
+    for d, sc, t, _sql in raw["tables"]:
+        if t.startswith("_fs_") and d != "_fs_global":
+            out.setdefault(d, []).append((f"{sc}.{t}", data[f"{d}.{sc}.{t}"]))
+    return {d: tuple(sorted(v)) for d, v in out.items()}
+
+
+def real_state(fs):
+    raw = observe.catalog(fs, views=False, data=True)
+    return real_catalog(fs, raw), stored_metadata(raw)
+
+
+def real_catalog(fs, raw=None):
+    cat = observe.user_view(raw or observe.catalog(fs, views=False, data=True))
     out: dict = {d: {} for d in cat["dbs"]}
     for d, s in cat["schemas"]:
         if s.lower() not in HIDDEN_SCHEMAS:
@@ -312,6 +353,16 @@ def reporters(conn):
         cur = conn.cursor()
         cur.execute("select current_database(), current_schema()")
         return tuple(cur.fetchall()[0])
+    except Exception as e:  # noqa: BLE001
+        return ("<exc>", type(e).__name__)
+
+
+def reported_rows(conn, sql):
+    """First two columns of every row of a metadata query (or the error kind)."""
+    try:
+        cur = conn.cursor()
+        cur.execute(sql)
+        return tuple(tuple(r[:2]) for r in cur.fetchall())
     except Exception as e:  # noqa: BLE001
         return ("<exc>", type(e).__name__)
 
@@ -376,6 +427,7 @@ class Live:
         self.m = Model(cfg)
         self.sessions = []
         self.fs = None
+        self.prev_side: dict = {}
         if storage != "memory":
             self.dir = os.path.join(workdir, "dbs")
             os.makedirs(self.dir)
@@ -383,6 +435,7 @@ class Live:
             prev = inst.FakeSnow(db_path=self.dir)
             p0 = prev.connect()
             run_sql(p0, OLD_SQL + PRIOR_SQL[prior], "previous instance")
+            self.prev_side = real_state(prev)[1]  # what the previous instance stored, read before it is closed
             p0.close()
             prev.duck_conn.close()
             del p0, prev
@@ -401,8 +454,10 @@ class Live:
                 self.fs.duck_conn.close()
 
     def observe(self):
+        cat, side = real_state(self.fs)
         return {
-            "cat": real_catalog(self.fs),
+            "cat": cat,
+            "side": side,
             "sessions": [session_obs(s) if s is not None else None for s in self.sessions],
             "files": db_files(self.dir),
             "cwd": tuple(sorted(os.listdir(self.cwd))),
@@ -496,6 +551,8 @@ def check_fixture(cfg, live):
     base = live.observe()
     if base["cat"] != m.cat or base["files"] != tuple(sorted(f"{d}.db" for d in (m.disk or {}))):
         raise core.HarnessError(f"C14 fixture state differs from the model in {cfg}: {base['cat']} / {base['files']} vs {m.cat} / {m.disk}")
+    if not any(rows for _t, rows in base["side"].get("OTHER", ())):
+        raise core.HarnessError("C14: no stored metadata visible for the bystander table (comment, VARCHAR length): the metadata window is blind")
     if base["sessions"][0][:2] != ("OTHER", "SO"):
         raise core.HarnessError(f"C14 fixture: first session reports {base['sessions'][0]}")
     return base
@@ -616,6 +673,20 @@ def judge_connect(cfg, hist, live, pre_model, pre, post, got, exp, shp, findings
             what = "reported_names" if (a and b and a[:2] != b[:2]) else "engine_context"
             findings.append(("C14.undisturbed", f"{shp},session={who},{what}", dict(rp_detail, before=b, after=a)))
             diverged = True
+    # (5b) what pre-existing databases store about their tables (comments, VARCHAR lengths) is unchanged: compared with
+    # itself before the connect, and for a database found on disk with what the previous instance had stored
+    for d in sorted(pre.get("side", {})):
+        if post["side"].get(d) != pre["side"][d]:
+            findings.append(("C14.undisturbed", f"{shp},stored_metadata", dict(rp_detail, database=d, before=pre["side"][d], after=post["side"].get(d))))
+    if on_disk and dname in post["cat"] and dname in live.prev_side and post["side"].get(dname) != live.prev_side[dname]:
+        findings.append(("C14.undisturbed", f"{shp},previous_instance_stored_metadata", dict(rp_detail, database=dname, before=live.prev_side[dname], after=post["side"].get(dname))))
+    # (5c) the same through the reporting paths, against hand-written expectations, for the prior table DB1.S1.T0 seen
+    # from the new session (one spelling of the first connect only: these queries are slow)
+    if len(hist) == 1 and database == "db1" and exp["has_db"] and "T0" in m.cat.get("DB1", {}).get("S1", {}):
+        for what, sql in T0_QUERIES.items():
+            got_rows = reported_rows(conn, sql)
+            if got_rows != T0_REPORTED[what]:
+                findings.append(("C14.undisturbed", f"{shp},reported_{what}", dict(rp_detail, sql=sql, expected=T0_REPORTED[what], reported=got_rows)))
     # (6) files
     if storage == "memory":
         if post["cwd"] or post["files"]:
@@ -699,7 +770,7 @@ def explore(item, acc: core.Acc, tier):
             acc.count("connects_after_a_statement")
         exp = info["expected"]
         post = info["post"]
-        acc.obs((cfg, hist, info["outcome"][:4], sorted(map(repr, post["cat"].items())), post["sessions"], post["files"], post["cwd"], r["obs"]))
+        acc.obs((cfg, hist, info["outcome"][:4], sorted(map(repr, post["cat"].items())), sorted(map(repr, post["side"].items())), post["sessions"], post["files"], post["cwd"], r["obs"]))
         acc.outcome((info["shape"], info["outcome"][0], info["outcome"][1] if info["outcome"][0] != "ok" else None, r["obs"][-1]))
         if exp["created_db"] or exp["created_schema"] or not exp["has_db"] or not exp["has_schema"] or info["outcome"][0] != "ok":
             acc.nontrivial((cfg, info["pre_key"], hist[-1]))
